@@ -209,7 +209,16 @@ def validate_schedule(G, raw, nodes, sup_name: str, prune: bool):
                             break
         miss = req - set(pos)
         if miss:
-            problems.append(("required-vertex-not-scheduled", e, sorted(miss)[:6], len(miss)))
+            # Known finding D12 (ragged stacks, prune=False): to_connected_graph only attaches vertices that are no ancestor of the episode's
+            # LAST supervisor vertex; in an episode longer than the common horizon a vertex may finish before a supervisor step inside the
+            # horizon and still only be needed (as an ancestor) by supervisor steps beyond it - it is then scheduled past the horizon.
+            beyond = set()
+            for p in sorted(k for k in refw[sup_name] if k >= P):
+                beyond |= nx.ancestors(D, (sup_name, p))
+            if not prune and miss <= beyond:
+                problems.append(("required-vertex-only-scheduled-beyond-horizon", e, sorted(miss)[:6], len(miss)))
+            else:
+                problems.append(("required-vertex-not-scheduled", e, sorted(miss)[:6], len(miss)))
         stats["extra"] += len(set(pos) - req)
         stats["required"] += len(req)
         nvert = sum(int((raw.vertices[n].seq[e] >= 0).sum()) for n in nodes)
